@@ -227,7 +227,8 @@ def rotate_feats(feats, n, k):
 
 # ---------------------------------------------------------------- patterns
 def tokens(pat):
-    """DNA regex syntax -> list of ('cls', c) | ('star', c, greedy) | ('open',) | ('close',)"""
+    """DNA regex syntax -> list of ('cls', c) | ('star', c, greedy) | ('open',) | ('close',).
+    Equivalent spellings are normalised: `X+` = `X X*`, `X+?` = `X X*?`, `X{n}` = n times `X`."""
     out = []
     i = 0
     while i < len(pat):
@@ -238,12 +239,22 @@ def tokens(pat):
         elif c == ")":
             out.append(("close",))
             i += 1
-        elif i + 2 < len(pat) + 0 and pat[i + 1:i + 3] == "*?":
+        elif pat[i + 1:i + 3] == "*?":
             out.append(("star", c, False))
             i += 3
-        elif i + 1 < len(pat) and pat[i + 1] == "*":
+        elif pat[i + 1:i + 2] == "*":
             out.append(("star", c, True))
             i += 2
+        elif pat[i + 1:i + 3] == "+?":
+            out += [("cls", c), ("star", c, False)]
+            i += 3
+        elif pat[i + 1:i + 2] == "+":
+            out += [("cls", c), ("star", c, True)]
+            i += 2
+        elif pat[i + 1:i + 2] == "{" and "}" in pat[i + 2:] and pat[i + 2:pat.index("}", i + 2)].isdigit():
+            j = pat.index("}", i + 2)
+            out += [("cls", c)] * int(pat[i + 2:j])
+            i = j + 1
         else:
             out.append(("cls", c))
             i += 1
